@@ -576,6 +576,65 @@ func checkC13(c *Check) {
 		}
 	}
 	c.Hold("R4", "CheckConn:lookup-failure-defers", cc.FI.Decl.Pos(), msg == "", msg)
+	// with a resolver configured the decision always waits for the lookup; a "not found" answer is the neutral
+	// result, not a failure (hosts without TLSA records are delivered to)
+	{
+		isResolverNil := func(atom ast.Expr) (bool, bool) {
+			if be, ok := ast.Unparen(atom).(*ast.BinaryExpr); ok && (be.Op == token.EQL || be.Op == token.NEQ) && isNilIdent(ci, be.Y) {
+				if fv := fieldOf(ci, be.X); fv != nil && objName(fv) == "extResolver" {
+					return be.Op == token.NEQ, true // a resolver is configured
+				}
+			}
+			return false, false
+		}
+		m2 := ""
+		wRes := cc.F.World(isResolverNil)
+		if p5, f5 := cc.F.Reach(Query{From: cc.Entry(), Inclusive: true, Target: cc.F.IsExitPt, Avoid: isPt(fut), AvoidEdge: wRes}); f5 {
+			m2 = "with a DNSSEC resolver configured CheckConn can return without consulting the TLSA lookup (DANE is never enforced): " + cc.F.Describe(p5)
+		}
+		if len(fut) == 1 && m2 == "" {
+			call := cc.CallAt(fut[0], func(info *types.Info, call *ast.CallExpr) bool {
+				return methodName(call) == "GetContext" || methodName(call) == "Get"
+			})
+			if eo := errVarAssigned(ci, fut[0].Node(), call); eo != nil {
+				wNF := cc.F.World(func(atom ast.Expr) (bool, bool) {
+					if ic, ok := ast.Unparen(atom).(*ast.CallExpr); ok && isCall(ci, ic, dnsPkg+".IsNotFound") && len(ic.Args) == 1 && objOf(ci, ic.Args[0]) == eo {
+						return true, true
+					}
+					if ns, ok := nilTest(ci, atom, eo); ok {
+						return ns == 1, true
+					}
+					return false, false
+				})
+				neutral := func(pt Pt) bool {
+					_, ret := cc.F.Exit(pt)
+					if ret == nil || len(ret.Results) != 2 || !isNilIdent(ci, ret.Results[1]) {
+						return false
+					}
+					sx, ok := ast.Unparen(ret.Results[0]).(*ast.SelectorExpr)
+					return ok && sx.Sel.Name == "TLSNone"
+				}
+				if p6, f6 := cc.F.Reach(Query{From: fut, Target: func(q Pt) bool { return cc.F.IsExitPt(q) && !neutral(q) }, AvoidEdge: wNF}); f6 {
+					m2 = "a 'no such record' answer of the TLSA lookup does not give the neutral result: deliveries to every host without TLSA records are deferred or refused: " + cc.F.Describe(p6)
+				}
+			}
+		}
+		c.Hold("R4", "CheckConn:resolver-consulted-notfound-neutral", cc.FI.Decl.Pos(), m2 == "", m2)
+		if pcx := c.In(remoteRel, "daneDelivery", "PrepareConn"); pcx != nil {
+			pinfo := pcx.Info
+			wP := pcx.F.World(func(atom ast.Expr) (bool, bool) {
+				if be, ok := ast.Unparen(atom).(*ast.BinaryExpr); ok && (be.Op == token.EQL || be.Op == token.NEQ) && isNilIdent(pinfo, be.Y) {
+					if fv := fieldOf(pinfo, be.X); fv != nil && objName(fv) == "extResolver" {
+						return be.Op == token.NEQ, true
+					}
+				}
+				return false, false
+			})
+			starts := pcx.F.Find(func(n ast.Node) bool { _, ok := n.(*ast.GoStmt); return ok })
+			p7, f7 := pcx.F.Reach(Query{From: pcx.Entry(), Inclusive: true, Target: pcx.F.IsExitPt, Avoid: isPt(starts), AvoidEdge: wP})
+			c.Hold("R4", "PrepareConn:lookup-started", pcx.FI.Decl.Pos(), !f7 && len(starts) > 0, "with a DNSSEC resolver configured PrepareConn can return without starting the TLSA lookup: "+pcx.F.Describe(p7))
+		}
+	}
 	// the discovery itself: an error of any resolver call that is not "not found" ends the discovery with that
 	// error – it is never treated like an empty answer (no fall-through to another lookup, no nil-error return)
 	c.Rule("R5", "discoverTLSA: a resolver error other than not-found is returned; it never falls through to a further lookup or to a 'no records' result", 3)
